@@ -215,7 +215,8 @@ func VerifyProof(token string, cfg *ProofConfig, cache *nonceCache) (map[string]
 	if err != nil {
 		return nil, &ProofError{"malformed", "ts not an integer"}
 	}
-	age := nowFn().Unix() - ts
+	now := nowFn()
+	age := now.Unix() - ts
 	skew := int64(cfg.SkewSeconds)
 	if age > skew {
 		return nil, &ProofError{"expired", fmt.Sprintf("age=%ds", age)}
@@ -238,7 +239,10 @@ func VerifyProof(token string, cfg *ProofConfig, cache *nonceCache) (map[string]
 		return nil, &ProofError{"bad_mac", "signature mismatch"}
 	}
 
-	if cache != nil && !cache.checkAndAdd(nonce) {
+	// Judged at the same clock reading as the window above: a second, later
+	// reading could find the entry expired while the timestamp was still taken
+	// as valid.
+	if cache != nil && !cache.checkAndAddAt(nonce, now) {
 		return nil, &ProofError{"replayed", "nonce already seen"}
 	}
 
@@ -288,7 +292,11 @@ func newNonceCache(ttl time.Duration, capacity int, now func() time.Time) *nonce
 // Test and insert are one locked operation: a separate contains-then-add would
 // let two concurrent replays both observe "not seen" and both be accepted.
 func (c *nonceCache) checkAndAdd(nonce string) bool {
-	now := c.now()
+	return c.checkAndAddAt(nonce, c.now())
+}
+
+// checkAndAddAt is checkAndAdd at a caller-supplied instant.
+func (c *nonceCache) checkAndAddAt(nonce string, now time.Time) bool {
 	c.mu.Lock()
 	defer c.mu.Unlock()
 
@@ -357,7 +365,11 @@ func ProofAuthenticate(cfg ProofConfig, inner AuthenticateFunc) (AuthenticateFun
 	}
 	var cache *nonceCache
 	if !cfg.DisableReplayCache {
-		cache = newNonceCache(time.Duration(cfg.SkewSeconds)*time.Second, capacity, cfg.Now)
+		// A timestamp first accepted at the early edge of its window (now =
+		// ts-skew) stays acceptable until the second ts+skew has fully elapsed,
+		// so a nonce must be remembered for 2*skew+1 seconds; a TTL of skew
+		// alone lets the same proof through again once its entry has expired.
+		cache = newNonceCache(time.Duration(2*cfg.SkewSeconds+1)*time.Second, capacity, cfg.Now)
 	}
 	required := cfg.Mode == ProofModeRequire
 	local := cfg
